@@ -278,6 +278,7 @@ func init() {
 				return s.Accepted["dz_quad"] >= 4 && s.Accepted["dz_info"] >= 1 && s.Accepted["dz_region"] >= 1
 			})
 		partDagazStorm(c, a)
+		partRealBinaryIntegrity(c, a, true)
 		return a.finish(c)
 	}
 }
